@@ -1,1 +1,4 @@
-import Proofs.T
+import Proofs.Fold
+import Proofs.Props.C11
+import Proofs.Props.C16
+import Proofs.Props.C05
